@@ -148,6 +148,13 @@ func (w *world) opSendX(i int, sync bool, expectBlock bool) string {
 	if strings.HasPrefix(res, "err:panic") {
 		out.Pred("C36|Send|panic", res)
 	}
+	// a send begun after a close has returned must fail (property: "returns an error")
+	if res == "ok" && w.reqClosed {
+		out.Pred("C36|Send|ok-after-client-close", fmt.Sprintf("Send(%d, sync=%v) returned nil after the sender's own client was closed", i, sync))
+	}
+	if res == "ok" && w.closed {
+		out.Pred("C36|Send|ok-after-close", fmt.Sprintf("Send(%d, sync=%v) returned nil after the topic/queue was closed", i, sync))
+	}
 	return res
 }
 
